@@ -164,23 +164,25 @@ type hrun struct {
 }
 
 type runCtx struct {
-	tier        string
-	only        string
-	workers     int
-	noReplay    bool
-	verbose     bool
-	runs        []*hrun
-	exit        int
-	nViol       int
-	replayFiles []string
-	nativeRuns  int
-	knownLines  []string
-	assumes     []string
-	outside     []string
-	loadS       float64
-	timeoutMs   int
-	solver      string
-	property    string
+	tier                        string
+	only                        string
+	workers                     int
+	noReplay                    bool
+	verbose                     bool
+	runs                        []*hrun
+	exit                        int
+	nViol                       int
+	replayFiles                 []string
+	nativeRuns                  int
+	knownLines                  []string
+	assumes                     []string
+	outside                     []string
+	loadS                       float64
+	timeoutMs                   int
+	crossEvery                  int
+	cross, crossAgree, crossInc int
+	solver                      string
+	property                    string
 }
 
 type multiFlag []string
@@ -293,6 +295,18 @@ func (rc *runCtx) runSpec(specPath string, evPath string) int {
 		eng.queryTimeoutMs = 120000
 	}
 	rc.timeoutMs = eng.queryTimeoutMs
+	// cross-solver diffing: every N-th decided query is re-decided by z3 5.1.0 (z3-new) as a flat script
+	eng.crossEvery = 400
+	if rc.tier == "thorough" {
+		eng.crossEvery = 100
+	}
+	if v := os.Getenv("GOSYM_CROSS"); v != "" {
+		eng.crossEvery, _ = strconv.Atoi(v)
+	}
+	if _, err := exec.LookPath("z3-new"); err != nil {
+		eng.crossEvery = 0
+	}
+	rc.crossEvery = eng.crossEvery
 	rc.solver = eng.solverKind
 	rc.loadS += time.Since(t0).Seconds()
 	eng.InitShared()
@@ -365,6 +379,12 @@ func (rc *runCtx) runSpec(specPath string, evPath string) int {
 		if rc.verbose {
 			fmt.Fprintf(os.Stderr, "%s: paths=%d ends=%v decisions=%d obligations=%d violations=%d covers=%v events=%v wall=%v solver=%v queries=%d\n",
 				hs.Func, res.Paths, res.PathEnds, res.Decisions, res.Obligations, len(res.Violations), res.Covers, res.Events, res.Wall.Round(time.Millisecond), res.SolverTime.Round(time.Millisecond), res.Queries)
+		}
+		rc.cross += res.Cross
+		rc.crossAgree += res.CrossAgree
+		rc.crossInc += res.CrossInconclusive
+		if len(res.CrossDisagree) > 0 {
+			rc.fail(hr, 2, "SOLVER-DISAGREEMENT: "+res.CrossDisagree[0])
 		}
 		if len(res.EngineErrors) > 0 {
 			rc.fail(hr, 2, "engine error: "+firstLine(res.EngineErrors[0]))
@@ -515,7 +535,9 @@ func (rc *runCtx) writeEvidence(evPath string, seed int, t0 time.Time) {
 	cov["harnesses"] = hsum
 	cov["functions_encoded"] = topFuncs(funcs, 60)
 	cov["functions_encoded_count"] = len(funcs)
-	cov["solver"] = map[string]interface{}{"kind": rc.solver, "queries": queries, "solver_s": solverS, "query_timeout_ms": rc.timeoutMs}
+	cov["solver"] = map[string]interface{}{"kind": rc.solver, "queries": queries, "solver_s": solverS, "query_timeout_ms": rc.timeoutMs,
+		"cross_check": map[string]interface{}{"second_solver": "z3 5.1.0 (z3-new), flat script, 30 s", "every_nth_query": rc.crossEvery,
+			"queries_cross_checked": rc.cross, "agree": rc.crossAgree, "second_solver_inconclusive": rc.crossInc, "disagree": rc.cross - rc.crossAgree - rc.crossInc}}
 	cov["load_s"] = rc.loadS
 	cov["explanation"] = "states = symbolic paths explored to completion or termination; transitions = solver-decided symbolic branch decisions; every obligation is an SMT query PC && !assertion answered unsat"
 	if rc.outside == nil {
